@@ -449,8 +449,9 @@ func nodeType2(interp *Interpreter, sc *scope, n *node, seen []*node) (t *itype,
 		case v.IsValid():
 			// Size if defined by a constant literal value.
 			if isConstantValue(v.Type()) {
-				c := v.Interface().(constant.Value)
-				length = constToInt(c)
+				if length, err = arrayLength(c0, v.Interface().(constant.Value)); err != nil {
+					return nil, err
+				}
 			} else {
 				switch v.Type().Kind() {
 				case reflect.Int, reflect.Int8, reflect.Int16, reflect.Int32, reflect.Int64:
@@ -477,6 +478,12 @@ func nodeType2(interp *Interpreter, sc *scope, n *node, seen []*node) (t *itype,
 			if sym.kind != constSym {
 				return nil, c0.cfgErrorf("non-constant array bound %q", c0.ident)
 			}
+			if sym.typ != nil && sym.typ.untyped && sym.rval.IsValid() && isConstantValue(sym.rval.Type()) {
+				if length, err = arrayLength(c0, sym.rval.Interface().(constant.Value)); err != nil {
+					return nil, err
+				}
+				break
+			}
 			if sym.typ == nil || !isInt(sym.typ.TypeOf()) || !sym.rval.IsValid() {
 				incomplete = true
 				break
@@ -501,7 +508,9 @@ func nodeType2(interp *Interpreter, sc *scope, n *node, seen []*node) (t *itype,
 					incomplete = true
 					break
 				}
-				length = constToInt(v)
+				if length, err = arrayLength(c0, v); err != nil {
+					return nil, err
+				}
 			}
 		}
 		val, err := nodeType2(interp, sc, n.child[1], seen)
@@ -2341,6 +2350,16 @@ func hasElem(t reflect.Type) bool {
 		return true
 	}
 	return false
+}
+
+// arrayLength returns the length of an array given by the constant c, which
+// may be a float or complex constant with an integer value: [8.0]byte.
+func arrayLength(n *node, c constant.Value) (int, error) {
+	i, ok := constant.Int64Val(constant.ToInt(c))
+	if !ok || i < 0 || int64(int(i)) != i {
+		return 0, n.cfgErrorf("invalid array length %s", c)
+	}
+	return int(i), nil
 }
 
 func constToInt(c constant.Value) int {
